@@ -666,6 +666,69 @@ class Restart:
 
 
 
+# ------------------------------------------------------------------------------ stop and start again in the same process
+
+class SeededDataStore:
+    """a DHT data store that lives on while the blob manager is stopped and started again; BlobManager.__init__ shares its set of
+    completed hashes only when the store is truthy (DictDataStore defines __len__: it must already hold an announcement)"""
+
+    def __init__(self):
+        self.completed_blobs = set()
+
+    def __len__(self):
+        return 1
+
+
+async def h_stop_start(present, size, status, length, mine, save_blobs, gone):
+    files, table = make_world(present, size, status, length, mine)
+    install_os(FakeOS(ROOT, files))
+    try:
+        store = SeededDataStore()
+        bm = new_manager(FakeLoop(), table, save_blobs, store)
+        await bm.setup()
+        bm.stop()
+        after_stop = (sorted(bm.completed_blob_hashes), sorted(store.completed_blobs))
+        # while the manager is stopped some blob files vanish (the user cleans the directory, a disk is lost)
+        for i in range(len(present)):
+            if gone[i] and (ROOT + '/' + HASHES[i]) in files:
+                del files[ROOT + '/' + HASHES[i]]
+        await bm.setup()
+        reported = sorted(bm.completed_blob_hashes)
+        offered = sorted(store.completed_blobs)         # what the DHT node announces and offers to peers
+        still = [HASHES[i] for i in range(len(present)) if (ROOT + '/' + HASHES[i]) in files]
+    finally:
+        restore_os()
+    return after_stop, reported, offered, sorted(still)
+
+
+@proof("C18", "stop-then-start")
+class StopThenStart:
+    """the same manager object stopped and started again while the DHT node (and its data store, which shares the set of completed
+    hashes) lives on: nothing is reported or offered while stopped; after the second start every blob reported as completed AND
+    every blob the data store offers to peers has its file, whatever files vanished in between"""
+    inputs = dict(present=TList(TBool(), n=2), size=TList(TInt(0, MAX_BLOB), n=2), status=TList(TInt(0, 2), n=2),
+                  length=TList(TInt(0, MAX_BLOB), n=2), mine=TList(TInt(0, 1), n=2), save_blobs=TBool(), gone=TList(TBool(), n=2))
+    note = "all 36 worlds of two hashes x 3 patterns of files vanishing while stopped (symbolically: every world, every pattern)"
+    run = h_stop_start
+
+    def ensures_nothing_reported_while_stopped(result):
+        return result[0] == ([], [])
+
+    def ensures_reported_and_offered_have_files(result):
+        after_stop, reported, offered, still = result
+        ok = True
+        for h in reported:
+            ok = ok and h in still
+        for h in offered:
+            ok = ok and h in still
+        return ok and reported == offered
+
+    def samples():
+        for w in all_worlds(2):
+            for gone in ([False, False], [True, False], [True, True]):
+                yield dict(w, gone=gone)
+
+
 # ------------------------------------------------------------------------------ deletion
 
 def stale_delete(present, status, touch):
